@@ -456,6 +456,8 @@ def witness_cases():
     W.append(("REGRESSION_struct_declared_after_use", ("c", "cpp"), fs1([("struct", "Outer", [("Header", 1, "h"), ("Body", 2, "b")]), ("struct", "Header", [("uint32", 1, "a")]),
                                                                         ("struct", "Body", [("uint32", 1, "b")]), ("struct", "Deep", [("Outer", 1, "o"), ("Header", 1, "again")]),
                                                                         ("iface", "IW", None, [("method", "m", [("in", "Outer", None, "p0"), ("out", "Deep", None, "p1")], False, None)])])))
+    W.append(("REGRESSION_struct_declared_after_interface", ("c", "cpp"), fs1([("iface", "IW", None, [("method", "m", [("in", "Late", None, "p0"), ("out", "Late", None, "p1"), ("in", "Late", "[]", "p2")], False, None)]),
+                                                                              ("struct", "Late", [("Inner", 1, "i"), ("uint32", 1, "x")]), ("struct", "Inner", [("uint32", 1, "y")])])))
     W.append(("REGRESSION_c_forward_iface_ref", ("c",), fs1([("struct", "SH", [("ILater", 1, "l"), ("uint64", 1, "a"), ("uint64", 1, "b")]),
                                                              ("iface", "IHub", None, [("method", "open", [("out", "ILater", None, "p0"), ("in", "SH", None, "p1")], False, None),
                                                                                       ("method", "arr", [("in", "ILater", "[2]", "p0")], False, None)]),
